@@ -42,3 +42,19 @@ Theorem C02_slice_same_observations :
     run_slice sched d ops f = (os, fo) ->
     (exists sl : bool, trace_ok d None sl (Some 0) ops os) /\ final_ok d None fo.
 Proof. intros. eapply slice_transparent. eassumption. Qed.
+
+(* MessagePack: the two code paths (xt's own size calculator cutting a slice
+   into documents that are decoded one by one; rmp-serde decoding value after
+   value from a reader) agree for EVERY byte string: the same documents with
+   the same events in the same order, success in one mode iff in the other,
+   identical output on success and prefix-comparable output on failure.
+   (utf8_valid is Rust's str::from_utf8(..).is_ok(), any function here.) *)
+From XtModel Require Import MsgpackModel MsgpackAgreeProofs.
+
+Theorem C02_msgpack_slice_reader_agree :
+  forall (utf8_valid : bytes -> bool) (inp : bytes),
+    let s := transcode_slice utf8_valid inp in
+    let r := transcode_reader utf8_valid inp in
+    fst s = fst r /\ mm_ok s = mm_ok r /\
+    prefix_of (mm_output s) (mm_output r) /\ (mm_ok s = true -> mm_output s = mm_output r).
+Proof. exact slice_reader_agree. Qed.
